@@ -230,9 +230,9 @@ type resT struct {
 	Frame      string `json:"frame,omitempty"`
 	Msg        string `json:"msg,omitempty"`
 	FirstErr   string `json:"first_err,omitempty"`
-	Skip       string `json:"skip,omitempty"`       // the rebuilt mode is not applicable (not describable)
+	Skip       string `json:"skip,omitempty"`        // the rebuilt mode is not applicable (not describable)
 	DisplayDep string `json:"display_dep,omitempty"` // the verdict differs from the one with every property display cleared
-	Divergence string `json:"divergence,omitempty"` // panic | nondeterministic | accepts | rejects
+	Divergence string `json:"divergence,omitempty"`  // panic | nondeterministic | accepts | rejects
 	BindError  string `json:"bind_error,omitempty"`
 	HarnessErr string `json:"harness_error,omitempty"`
 }
@@ -472,7 +472,7 @@ func (a *ast) spelled(n int64) (string, error) {
 	}
 	return string(rune(n)), nil
 }
-func mkey(n int64) string  { return fmt.Sprintf("k%d", n) }
+func mkey(n int64) string { return fmt.Sprintf("k%d", n) }
 
 // display of an enum value: named = it carries a display name; an unnamed value has no display value at all
 // (odd n) or one with a description only (even n)
